@@ -2,7 +2,7 @@
 
 Implementation: golem.core.optimisers.genetic.operators.base_mutations (the 10 functions of
 base_mutations_repo), ...operators.crossover (6 crossover functions), gp_operators.replace_subtrees.
-Model: coq/theories/Evo/Mutations.v, Crossovers.v (run_mut / run_cx, mut_check / cx_check).
+Model: coq/theories/Evo/Mutations.v, Crossovers.v (run_mut / run_cx, mut_check / cx_check); all 16 functions are modelled.
 
 Every case = one call of a REAL function on a freshly built graph (or pair of graphs).  The
 node objects are snapshotted before and after (object identity -> reference number, uid ->
@@ -548,7 +548,7 @@ def subtree_shape(h, r, memo=None):
 
 
 def infer_crossover(fn, b1, b2, hb, a1, a2, ha, parents_b):
-    """candidate choice vectors; None = not modelled / too many candidates (agreement not evaluated)"""
+    """candidate choice vectors; None = too many candidates (agreement not evaluated, oracle only)"""
     if fn in ('subtree_crossover', 'one_point_crossover'):
         rem1 = [r for r in b1 if r not in a1]
         rem2 = [r for r in b2 if r not in a2]
@@ -612,7 +612,7 @@ def infer_crossover(fn, b1, b2, hb, a1, a2, ha, parents_b):
                 return [('(@None (nat * nat))', '(@nil (nat * nat))')]
             return [('(Some (%d, %d))' % e, pr([x for x in rem if x != e])) for e in rem]
         o1, o2 = options(b1), options(b2)
-        if len(o1) * len(o2) * 4 > 64:
+        if len(o1) * len(o2) * 4 > 256:
             return None
         coins = ['[(0, 0, true)]', '[(0, 0, false)]']
         return ['(XSubgraph (mkSub %s %s %s %s %s %s))' % (f1, c1, f2, c2, k1, k2)
@@ -731,7 +731,8 @@ def run(ctx):
         'tests of single_edge / single_add / replace_subtrees and the `new_graph == graph` test (choices: the property '
         'does not speak about depth), the data_source text filter of single_drop (oracle), products of the node factory '
         '(new parentless node) and of the random graph factory (any fresh single-sink DAG)',
-        'subgraph_crossover is not modelled: only the oracle cx_holds_b is evaluated on its observed results',
+        'subgraph_crossover: the pairs cut by its while loop are inferred as the links that disappeared from each parent '
+        '(any of them may be the first one, order irrelevant); the search for shortest simple paths itself is not modelled',
     ]
     shapes = [p for n in range(1, 5) for p in small_dags(n)]
     # ---- mutations: every small shape x every function, then random graphs
